@@ -6,6 +6,8 @@ mod api;
 mod candle;
 mod flat;
 mod gen;
+mod generated;
+mod indicators;
 mod methods;
 mod renko;
 mod rng;
@@ -65,6 +67,15 @@ fn main() {
 			"candle" => candle::suite(&mut out, seed, thorough),
 			"renko" => renko::suite(&mut out, seed, thorough),
 			"api" => api::suite(&mut out, seed, thorough),
+			"ind" => {
+				let filter: Vec<String> = arg(&args, "--indicators").map(|s| s.split(',').map(|x| x.to_string()).collect()).unwrap_or_default();
+				indicators::suite(&mut out, seed, thorough, &filter)
+			}
+			"indapi" => {
+				let filter: Vec<String> = arg(&args, "--indicators").map(|s| s.split(',').map(|x| x.to_string()).collect()).unwrap_or_default();
+				let which = arg(&args, "--which").unwrap_or_else(|| "interface".into());
+				indicators::contract_suite(&mut out, seed, thorough, &which, &filter)
+			}
 			"methods" => {
 				let filter: Vec<String> = arg(&args, "--methods")
 					.map(|s| s.split(',').map(|x| x.to_string()).collect())
